@@ -289,15 +289,10 @@ def check_histories(chk, tmp):
     from aspire.history import FlowHistory, SMCHistory
 
     res = smcrun.run_smc({"seed": 2, "n_samples": 8, "kernel_steps": 1, "dims": 3})
-    h = res["sampler"].history
+    res_b = smcrun.run_smc({"seed": 9, "n_samples": 6, "kernel_steps": 1, "dims": 2, "adaptive": False, "n_steps": 3})
     p = os.path.join(tmp, "hist.h5")
-    case = {"level": "history", "cls": "SMCHistory"}
-    chk.case(case, "history:smc"); chk.count("histories")
-    try:
-        with h5py.File(p, "w") as f:
-            h.save(f)
-        with h5py.File(p, "r") as f:
-            g = SMCHistory.load(f)
+
+    def compare(h, g):
         bad = []
         for k in ("beta", "ess", "ess_target", "eff_target", "log_norm_ratio", "log_norm_ratio_var", "mcmc_acceptance"):
             a, b = np.asarray([float(v) for v in getattr(h, k)]), np.asarray(getattr(g, k), dtype=float).reshape(-1)
@@ -307,12 +302,33 @@ def check_histories(chk, tmp):
             bad.append("number of stored populations")
         else:
             for t, (a, b) in enumerate(zip(h.sample_history, g.sample_history)):
-                if not np.allclose(ns.to_np(a.x), ns.to_np(b.x)) or not np.allclose(ns.to_np(a.log_q), ns.to_np(b.log_q)) or a.beta != b.beta or list(a.parameters) != list(b.parameters):
+                if ns.to_np(a.x).shape != ns.to_np(b.x).shape or not np.allclose(ns.to_np(a.x), ns.to_np(b.x)) or not np.allclose(ns.to_np(a.log_q), ns.to_np(b.log_q)) \
+                        or a.beta != b.beta or list(a.parameters) != list(b.parameters):
                     bad.append(f"population {t}")
-        if bad:
-            chk.fail("a saved history reloads with every series and every stored population", case, "; ".join(bad), {"level": "history", "clause": "equal"})
-    except Exception as e:   # noqa
-        chk.fail("a saved history reloads", case, repr(e)[:200], {"level": "history", "clause": "raise"})
+        return bad
+
+    # one history under the default group; then TWO runs in one file, the second under a group name of the caller's choice
+    for layout in ("default group", "default group + custom group", "custom group only"):
+        case = {"level": "history", "cls": "SMCHistory", "layout": layout}
+        chk.case(case, "history:smc:" + layout); chk.count("histories")
+        try:
+            with h5py.File(p, "w") as f:
+                if layout != "custom group only":
+                    res["sampler"].history.save(f)
+                if layout != "default group":
+                    res_b["sampler"].history.save(f, path="run_b_history")
+            bad = []
+            with h5py.File(p, "r") as f:
+                if layout != "custom group only":
+                    bad += compare(res["sampler"].history, SMCHistory.load(f))
+                if layout != "default group":
+                    bad += ["run_b: " + x for x in compare(res_b["sampler"].history, SMCHistory.load(f, path="run_b_history"))]
+            if bad:
+                chk.fail("a saved history reloads with every series and every stored population", case, "; ".join(bad), {"level": "history", "clause": "equal"})
+        except Exception as e:   # noqa
+            chk.fail("a saved history reloads", case, repr(e)[:200], {"level": "history", "clause": "raise"})
+    with h5py.File(p, "w") as f:
+        res["sampler"].history.save(f)
     fhist = FlowHistory(training_loss=[1.0, 0.5, 0.25], validation_loss=[1.5, 0.75, 0.5])
     case = {"level": "history", "cls": "FlowHistory"}
     chk.case(case, "history:flow"); chk.count("histories")
@@ -387,6 +403,22 @@ def check_transforms(chk, r, tmp, quick):
 
 
 # ----------------------------------------------------------------------------- (5) flows
+def flow_parameters(f):
+    """the floating-point parameter arrays of a flow wrapper (zuko: state_dict; flowjax: the array leaves of the equinox module)"""
+    fl = getattr(f, "_flow", None)
+    if fl is None:
+        return None
+    try:
+        if hasattr(fl, "state_dict"):
+            return [v.detach().cpu().numpy() for v in fl.state_dict().values()]
+        import equinox as eqx
+        import jax
+
+        return [np.asarray(v) for v in jax.tree_util.tree_leaves(eqx.filter(fl, eqx.is_inexact_array))]
+    except Exception:   # noqa
+        return None
+
+
 def check_flows(chk, tmp, quick):
     import h5py
     import torch
@@ -431,6 +463,22 @@ def check_flows(chk, tmp, quick):
                 os.remove(p)
                 with torch.no_grad():
                     got = ns.to_np(g.log_prob(data[:10]))
+                # the reloaded network holds the weights that were saved: the same density to (nearly) the last bit of the precision it is
+                # evaluated in, not merely to single precision
+                # the reloaded network holds exactly the parameter values that were in memory (same precision, same bits): anything
+                # else is another density, however close (the density itself is compared at single precision because the
+                # data transform's constant log-Jacobian is recomputed on load)
+                pa, pb = flow_parameters(f), flow_parameters(g)
+                if pa is not None and pb is not None:
+                    chk.count("flows:parameter_leaves_compared", len(pa))
+                    badp = [i_ for i_, (u_, v_) in enumerate(zip(pa, pb)) if u_.dtype != v_.dtype or u_.shape != v_.shape or not np.array_equal(u_, v_, equal_nan=True)]
+                    if len(pa) != len(pb) or badp:
+                        i_ = badp[0] if badp else -1
+                        chk.fail("a saved flow reproduces the same density", dict(case, save_number=nth),
+                                 f"save number {nth}: {len(badp)} of {len(pa)} parameter arrays differ after reload (first: #{i_}, "
+                                 f"{pa[i_].dtype} -> {pb[i_].dtype}, max |d| = {float(np.max(np.abs(pa[i_].astype(float) - pb[i_].astype(float)))) if pa[i_].shape == pb[i_].shape and pa[i_].size else 'shape'})",
+                                 {"level": "flow", "clause": "parameters", "backend": backend, "save_number": nth})
+                        break
                 if not np.allclose(ref, got, rtol=1e-5, atol=1e-5):
                     chk.fail("a saved flow reproduces the same density", dict(case, save_number=nth),
                              f"save number {nth} of the same object: max |d log_prob| = {np.max(np.abs(ref - got)):.3g}",
